@@ -5,7 +5,7 @@ import gen as G
 import cont
 
 MODEL_TARGETS = ["model/Container.vo", "spec/FileSpec.vo"]
-COQ_TARGETS = ["props/C15.vo"]
+COQ_TARGETS = ["props/C15.vo", "proofs/ConstsTie.vo"]
 THEOREMS = [("C15", ["C15_fail", "C15_built", "C15_inv", "C15_accounting", "C15_accounting_any_sink", "C15_flush", "C15_nopanic", "C15_parses"])]
 PROOF_FILES = ["proofs/ContainerProofs.v", "proofs/ContainerFinal.v", "proofs/SerContractProofs.v", "proofs/VectoredWriteProofs.v", "props/C15.v"]
 TRUSTED_BASE = [
